@@ -96,6 +96,7 @@ for op, a in args:
     c = canon(r); c34 = int(''.join(map(str, c["c"]))) * 10 ** (34 - len(c["c"]))
     if op == "pow" and (c34 >= 10 ** 34 - 30 or c34 <= 10 ** 33 + 30): continue     # next to a power of ten the enclosure may straddle it (larger unit)
     if op == "log" and c34 >= 10 ** 34 - 30: continue      # next to a power of ten the acceptor deliberately uses the larger unit
+    if op == "exp" and (c34 >= 10 ** 34 - 30 or c34 <= 10 ** 33 + 30): continue   # a neighbour "one unit away" across a power of ten is ten units of the lower decade away (found by the thorough tier: exp(-89E-68))
     rec = {"op": op, "a": canon(a), "good": obs(r), "near": obs(near), "bad": obs(bad)}
     if b is not None: rec["b"] = canon(b)
     out.append(rec)
